@@ -37,6 +37,59 @@ Theorem C06_valid_record_survives (max limit : N) junk1 junk2 m :
      (spec_records prod_mi prod_ms max limit (junk1 ++ FE :: FD :: encode_ref prod_mi prod_ms m ++ FE :: FD :: junk2)).
 Proof. exact (valid_record_survives prod_mi prod_ms prod_mi_bounds prod_ms_bounds max limit junk1 junk2 m). Qed.
 
+(* ---- next_record_bytes at memory level (hcobs/GeoReader.v: the chunker of hcobs/GeoChunker.v pumping into the arena of the
+   reader's iovec, the decoder of hcobs/GeoDec.v on every Data chunk as anchored input, clear / drop of the iovec at
+   retries) ----
+   One call from any state that construction or an earlier call leaves (RState: heap, cache and iovec well formed, the
+   chunker's buffer inside the chunk its anchor holds and overlapping no slice of the iovec).  `tr` is the list of chunks the
+   call pumped.  Then: nothing that an in-bounds slice of the old memory reads was written; every chunk handed out still
+   lies inside the chunk its anchor holds at the end; read in the final memory the chunks are successive pumps of the
+   value-level chunker (to which C08 applies); the state after a call that returned is again an RState; and the call
+   returns what the value-level reader (to which C06_reader_spec_general applies) returns on those chunks -- for a record,
+   with the same range, and the bytes of the iovec handed out are exactly the record. *)
+From WP Require iovec.Geo hcobs.GeoChunker hcobs.GeoReader hcobs.GeoReaderInv hcobs.GeoReaderProofs.
+Theorem C06_geo_reader_call (mi ms : nat) (max limit : N) (bs fuel : nat) h r o h' r' tr :
+  GeoReaderProofs.RState h r ->
+  GeoReader.gnext_record mi ms max limit bs fuel h r = (o, h', r', tr) ->
+  GeoReaderInv.FR h h' /\ Forall (GeoChunker.chunk_ok h') tr /\
+  GeoReaderProofs.Pumps bs (GeoChunker.abs_st h (GeoReader.rchunker r)) (map (GeoChunker.abs_chunk h') tr)
+                           (GeoChunker.abs_st h' (GeoReader.rchunker r')) /\
+  (o <> GeoReader.GPanic -> o <> GeoReader.GFuel -> GeoReaderProofs.RState h' r') /\
+  forall rst,
+    let res := next_record mi ms max limit (map (GeoChunker.abs_chunk h') tr ++ rst) LSkipSentinel 0 0 (GeoReader.rlso r) in
+    match o with
+    | GeoReader.GRecord rs re => exists out rst', res = (ORecord (out, rs, re), rst', GeoReader.rlso r') /\
+                                                  Geo.all_bytes h' (GeoReader.riov r') = out
+    | GeoReader.GNone => exists rst', res = (ONone, rst', GeoReader.rlso r')
+    | _ => True
+    end.
+Proof.
+  intros S E. pose proof (GeoReaderProofs.greader_call mi ms max limit bs fuel h r S) as H. rewrite E in H.
+  destruct H as (A & B & C & D & P). split; [exact A|]. split; [exact B|]. split; [exact C|]. split.
+  - intros Hp Hf. exact (GeoReaderProofs.greader_next_state mi ms max limit bs fuel h r o h' r' tr S E Hp Hf).
+  - intros rst. exact (P rst).
+Qed.
+
+Theorem C06_geo_reader_init stream :
+  GeoReaderProofs.RState [] {| GeoReader.rchunker := {| GeoChunker.gbuf := Geo.as_default; GeoChunker.goffset := 0; GeoChunker.grest := stream |};
+                               GeoReader.riov := Geo.empty_iov; GeoReader.rlso := 0 |}.
+Proof. exact (GeoReaderProofs.RState_init stream). Qed.
+
+Example C06_geo_example :
+  let s := [1;97; 254;253; 2;98;99; 254;253; 254;253; 3;100;101;102;103; 254;253; 255;1; 254;253; 1;122]%N in
+  match GeoReader.gnext_record prod_mi prod_ms 2%N 18446744073709551615%N 3 30 []
+          {| GeoReader.rchunker := {| GeoChunker.gbuf := Geo.as_default; GeoChunker.goffset := 0; GeoChunker.grest := s |};
+             GeoReader.riov := Geo.empty_iov; GeoReader.rlso := 0 |} with
+  | (GeoReader.GRecord rs re, h1, r1, _) =>
+    (rs, re, Geo.all_bytes h1 (GeoReader.riov r1)) = (0, 2, [97]%N) /\
+    match GeoReader.gnext_record prod_mi prod_ms 2%N 18446744073709551615%N 3 30 h1 r1 with
+    | (GeoReader.GRecord rs2 re2, h2, r2, _) => (rs2, re2, Geo.all_bytes h2 (GeoReader.riov r2)) = (4, 7, [98; 99]%N)
+    | _ => False
+    end
+  | _ => False
+  end.
+Proof. vm_compute. split; reflexivity. Qed.
+
 (* non-vacuity: valid, missing terminator, over-long, corrupt; limit stops before the last record *)
 Example C06_example :
   let s := [1;97; 254;253; 2;98;99; 254;253; 254;253; 3;100;101;102;103; 254;253; 255;1; 254;253; 1;122]%N in
@@ -48,3 +101,5 @@ Proof. vm_compute. repeat split; reflexivity. Qed.
 Print Assumptions C06_reader_spec.
 Print Assumptions C06_reader_spec_general.
 Print Assumptions C06_valid_record_survives.
+Print Assumptions C06_geo_reader_call.
+Print Assumptions C06_geo_reader_init.
